@@ -199,6 +199,65 @@ func checkRS(raw json.RawMessage) error {
 	return nil
 }
 
+// RSHistCase: a sequence of encode / decode calls on ONE encoder and ONE decoder instance.
+type RSHistCase struct {
+	Field string   `json:"field"`
+	Calls []RSCase `json:"calls"`
+}
+
+func checkRSHist(raw json.RawMessage) error {
+	var c RSHistCase
+	if err := json.Unmarshal(raw, &c); err != nil {
+		return fmt.Errorf("hx: %v", err)
+	}
+	f, err := fieldByName(c.Field)
+	if err != nil {
+		return err
+	}
+	enc := rs.NewReedSolomonEncoder(f.lib)
+	dec := rs.NewReedSolomonDecoder(f.lib)
+	for ci, call := range c.Calls {
+		k, r := len(call.Data), call.R
+		word := make([]int, k+r)
+		copy(word, call.Data)
+		if e := enc.Encode(word, r); e != nil {
+			return fmt.Errorf("call %d: Encode(k=%d,r=%d) on a reused encoder failed: %v", ci, k, r, e)
+		}
+		par := f.ref.Parity(call.Data, r)
+		for i := range par {
+			if word[k+i] != par[i] {
+				return fmt.Errorf("call %d on a reused encoder (field %s, k=%d, r=%d; earlier parity counts %v): parity symbol %d = %d, reference %d", ci, f.name, k, r, parityCounts(c.Calls[:ci]), i, word[k+i], par[i])
+			}
+		}
+		for i := 0; i < k; i++ {
+			if word[i] != call.Data[i] {
+				return fmt.Errorf("call %d: data symbol %d changed", ci, i)
+			}
+		}
+		bad := append([]int(nil), word...)
+		for i, p := range call.ErrPos {
+			bad[p] ^= call.ErrMag[i]
+		}
+		if e := dec.Decode(bad, r); e != nil {
+			return fmt.Errorf("call %d on a reused decoder: Decode failed with %d <= floor(%d/2) errors: %v", ci, len(call.ErrPos), r, e)
+		}
+		for i := range bad {
+			if bad[i] != word[i] {
+				return fmt.Errorf("call %d on a reused decoder: symbol %d not restored", ci, i)
+			}
+		}
+	}
+	return nil
+}
+
+func parityCounts(calls []RSCase) []int {
+	var out []int
+	for _, c := range calls {
+		out = append(out, c.R)
+	}
+	return out
+}
+
 func genRS(t *rapid.T, f fieldPair, maxN int) RSCase {
 	n1 := f.ref.Size - 1
 	if maxN > n1 {
@@ -276,6 +335,7 @@ func TestCheck(t *testing.T) {
 	hx.Main(t, "C04", func(c *hx.Ctx) {
 		c.Register("gf", checkGF)
 		c.Register("rs", checkRS)
+		c.Register("rs_history", checkRSHist)
 	}, func(c *hx.Ctx) {
 		// (a) all element pairs of all six fields
 		for _, f := range fields {
@@ -331,6 +391,33 @@ func TestCheck(t *testing.T) {
 				}
 				c.Note(sub, cl, len(cs.ErrPos) > 0, hx.Hash(raw), func() any { return cs })
 				if err := c.Eval("rs", cs); err != nil {
+					t.Fatalf("%v", err)
+				}
+			})
+		}
+
+		// (b') histories: one encoder and one decoder instance reused over a sequence of calls
+		for fi, f := range fields {
+			ff := f
+			c.RapidIdx("rs_instance_histories", fi, c.N(300, 3000), 0, func(t *rapid.T) {
+				n := rapid.IntRange(2, 8).Draw(t, "ncalls")
+				cs := RSHistCase{Field: ff.name}
+				grow := false
+				for i := 0; i < n; i++ {
+					call := genRS(t, ff, 40)
+					call.Field = ""
+					if i > 0 && call.R > cs.Calls[i-1].R {
+						grow = true
+					}
+					cs.Calls = append(cs.Calls, call)
+				}
+				raw, _ := json.Marshal(cs)
+				cl := "field=" + ff.name
+				if grow {
+					cl += ";parity_count_grows"
+				}
+				c.Note("rs_instance_histories", cl, grow, hx.Hash(raw), func() any { return cs })
+				if err := c.Eval("rs_history", cs); err != nil {
 					t.Fatalf("%v", err)
 				}
 			})
